@@ -270,6 +270,12 @@ func (evm *EVM) TransferAssetTx(caller ContractRef, addr common.Address, gas uin
 			evm.am.RevertToSnapshot(snapshot)
 			return nil, gas, err, nil
 		} else { // err == nil
+			// An issuer may replenish any asset id, so the receiver's record under this id can belong
+			// to another asset; adding to it would turn units of one asset into units of the other.
+			if toEquity.AssetCode != senderEquity.AssetCode {
+				evm.am.RevertToSnapshot(snapshot)
+				return nil, gas, ErrAssetCodeNotEqual, nil
+			}
 			// 	add assetId's balance of to
 			newToEquity := toEquity.Clone()
 			newToEquity.Equity = new(big.Int).Add(newToEquity.Equity, amount)
